@@ -973,6 +973,7 @@ class P(Prop):
     design_ref = "DESIGN.md section 5, C07"
     M = "TracklibVerif.Props.C07"
     MA = "TracklibVerif.Props.C07AStar"
+    MF = "TracklibVerif.Props.C07Family"
     theorems = [
         (M, "TV.C07.forward_state_good", "the flags left by run_routing_forward(s,t,cut) satisfy the invariants: antecedent is settled, joined by antecedent_edge in a permitted direction, tight (d v = d a + w), well-founded in settle order"),
         (M, "TV.C07.path_is_walk", "any path returned by shortest_path(s,t,cut): node list from s to t, consecutive nodes joined by the recorded edge in a permitted direction; geometry = chain of those edges' polylines along the travel, junctions once, ending at pos t; weights sum to the label of t"),
@@ -1016,7 +1017,13 @@ class P(Prop):
         (MA, "TV.C07.dijkstra_mode_is_session", "an object whose routing_mode is not 1 answers every call, and is left in the state, of the Dijkstra session (heuristic keeps its initial 0), whatever astar_wgt and the coordinates"),
         (MA, "TV.C07.astar_session_path_fresh", "shortest_path at any point of a session on an object with routing settings = shortest_path on a fresh network with the settings of that moment (flags of earlier searches in either mode reset); the label left on the target = shortest_distance's value"),
         (MA, "TV.C07.astar_session_dist_fresh", "shortest_distance(s,t,cut) at any point of such a session = on a fresh network with the settings of that moment"),
+        (MA, "TV.C07.astar_backward_settled_optimal", "A* mode, consistent heuristic: after a search stopped at its target or by a cut-off, run_routing_backward(t) for any node t != s settled before the stop returns a route realising the true distance"),
+        (MA, "TV.C07.astar_session_outputs_ok", "STATE MACHINE with routing settings: in ANY sequence of setRoutingMethod / setAStarWeight / shortest_path / shortest_distance / run_routing_forward / run_routing_backward calls on one network (any astar_wgt and coordinates — the heuristic need not be consistent —, modes switched at any moment, any targets and cut-offs) the backward loop terminates and every returned track is the chain of a real route whose weights sum to the label of its last node"),
         (MA, "TV.C07.setters_touch_settings_only", "setRoutingMethod / setAStarWeight change their own attribute only: neither the node flags nor the output_dict"),
+        (MF, "TV.C07.family_path_as_private", "FAMILIES (networks sharing Node / Edge objects, sub_network kept and used): whatever flags the shared Node objects carry (anything any other network's search wrote), shortest_path(s,t,cut) of a network returns exactly the pure shortest_path of ITS OWN graph, leaves its shortest_distance on the target and touches the flags of its own nodes only"),
+        (MF, "TV.C07.family_backward_as_private", "families: run_routing_forward(s,tgt,cut) followed by run_routing_backward(t') on the same network returns what it returns with Node objects of its own, whatever the flags found on the shared objects"),
+        (MF, "TV.C07.family_program_path_as_private", "ANY PROGRAM over a family (Network(), edges added, distance / table / prepare calls, sub_network kept as a new network, extracts of extracts, weights of shared Edge objects assigned, shortest_path on any network, in any order): nets[k].shortest_path(s,t,cut) returns the pure shortest_path of network k's own current graph and leaves its shortest_distance on the target"),
+        (MF, "TV.C07.family_path_optimal", "families: shortest_path(s,t) of a network never diverges, is None iff t is unreachable in THIS network or t = s, else the chain of a route of this network whose weights sum to its true shortest distance — whatever the other networks were asked before"),
     ]
     partial = []
     open_statements = ["Track.copy is modelled as the identity on (points, feature table): that the returned track shares no Obs / coordinate object with the network is not a theorem; the harness checks it by moving the points of every returned track (scribble stream) and validating the later answers of the session",
@@ -1026,11 +1033,11 @@ class P(Prop):
                        "The A* session (Model/GraphAStarPath.lean) is a session on a network that is not modified between the calls: A* on networks modified between calls (Model/GraphMut.lean) and on families is not modelled; negative astar_wgt is not generated",
                        "run_routing_backward on flags older than the last modification of the network (old antecedents, new weights / polylines): nothing is stated; proved: the loop ends (mut_never_diverges); what it returns is compared with the model only",
                        "modifications through Network.simplify / toENUCoords / toGeoCoords (they replace every edge geometry / node coordinate) are not in the model; the library has no call that removes an edge or a node",
-                       "families of networks sharing their Node and Edge objects (net.sub_network(s, cut) kept and used next to net, extracts of extracts; kinds fam / fam-ex): there is no Lean definition of the family for paths. "
-                       "The model side runs ONE msession (Model/GraphMut.lean) per network — sub_network being the run_routing_forward(s, cut=cut) it performs on the parent, the extract a Network() to which the kept Edge objects are "
-                       "added in the parent's edge order with the parent's Node objects — and the harness, not Lean, predicts which edges are kept (both ends at distance <= cut; TV.Graph.subEdges / TV.C06 have that in Lean for the distances). "
-                       "That the routing attributes written on the SHARED Node objects by another network's search are unobservable is proved for the labels (TV.C06.family_answers_as_private) and not for antecedent / antecedent_edge; "
-                       "run_routing_backward called when those attributes were last written by another network of the family is run but neither compared nor judged (nothing is stated about it)",
+                       "families of networks sharing their Node and Edge objects (net.sub_network(s, cut) kept and used next to net, extracts of extracts; kinds fam / fam-ex): Props/C07Family.lean proves, for ONE call on shared Node objects carrying ANY flags "
+                       "(Model/GraphSharedPath.lean: shortestPathSh = routeOnPD of Model/GraphShared.lean, the loop with the explicit priority_dict resetting the network's own NODES only, then run_routing_backward), that shortest_path and a forward + backward pair answer as on private objects "
+                       "(family_path_as_private, family_backward_as_private, family_path_optimal) — antecedent / antecedent_edge included. The family as a PROGRAM with shortest_path calls is TV.GraphExt.execFamP (family_program_path_as_private: every shortest_path of any program answers for its own network's current graph). Still open: "
+                       "execFamP has no run_routing_backward call and no geometry / coordinate modification; the correspondence stream still runs ONE msession (Model/GraphMut.lean) per network, and the harness, not Lean, predicts which edges sub_network keeps (TV.Graph.subEdges has that in Lean for C06); "
+                       "run_routing_backward called when the routing attributes were last written by ANOTHER network of the family is run but neither compared nor judged (nothing is stated about it)",
                        "getEdge(i).orientation = x on a built network: proved NOT to be read by routing (orientation_attribute_not_read) — the property read with the current attribute fails there; proposed finding %s (findings/C07.json), its inputs are generated once it is listed" % ORI_FROZEN]
     modelled = ("Network.addNode / addEdge (NODES with first registration winning, EDGES, NEXT_EDGES filled incrementally; proved to give the model's adjacency); "
                 "Network.run_routing_forward (as for C06) with __correctInputNode (node by id / Node object) and __resetFlags on the flags left by earlier searches; "
@@ -1043,7 +1050,7 @@ class P(Prop):
                 "naming unregistered / never-searched nodes; "
                 "A* MODE (Model/GraphAStar.lean, Model/GraphAStarPath.lean): Network.__init__'s routing_mode / astar_wgt, setRoutingMethod, setAStarWeight, the A* branch of run_routing_forward as it is after fix c78e3ab (label g, queue priority g + astar_wgt * fils.distanceTo(NODES[target]) when routing_mode == 1 and a target is given, else + the initial 0), "
                 "Node.distanceTo / ENUCoords.distanceTo / norm (3-D Euclidean, sqrt a parameter), shortest_path / shortest_distance / run_routing_forward / run_routing_backward as calls of a session on one object with its settings; "
-                "Network.sub_network (TOPOLOGIC) only as the calls it is made of: run_routing_forward(source, cut=cut) on the parent, then Network() + addEdge(e, e.source, e.target) for the kept edges — one model object per network of the family (see open_statements)")
+                "Network.sub_network (TOPOLOGIC) only as the calls it is made of: run_routing_forward(source, cut=cut) on the parent, then Network() + addEdge(e, e.source, e.target) for the kept edges — one model object per network of the family; the single call on shared Node objects carrying any flags is Model/GraphSharedPath.lean (see open_statements)")
     trusted = ["Track.copy (copy.deepcopy) is the identity on the model's immutable values",
                "priority_dict is modelled as extract-min by (priority, node id) (C06 proves the explicit heap equal to it)"]
     rule = (("the C06 graph space (all edge lists of length <= 2 on <= 3 nodes in quick, + all 3-edge multisets in thorough; random to 12 nodes / 40 edges, parallel edges of equal and of "
@@ -1084,6 +1091,8 @@ class P(Prop):
                  % ("every edge and every other value: 32004 sessions" if tier == "thorough" else "one random edge and value per graph: 8064 sessions"))
         s.append("families: four 3-node paths (two-way unit, one-way, with a zero-weight and a reverse-stored edge, with a long parallel chord) as network A, B = A.sub_network(s0, c0) kept, for every s0 and c0 in {0, 1, none}: "
                  "every ordered pair by shortest_path on A, on B, on A again (36 families)")
+        s.append("A* mode: all edge lists of length 1..2 on 2..3 nodes, weights {0,4,8}, orientations {-1,0,1}, one random lattice geometry and astar_wgt in {0.5,1,2} each, every ordered pair by shortest_path (%s)"
+                 % ("all 8046 graphs" if tier == "thorough" else "every 4th graph"))
         if tier == "thorough":
             s.append("all multisets of 3 edges on 1..3 nodes over the same alphabet (100482 multigraphs), edge / node insertion order shuffled, one random geometry each")
         return s
@@ -1134,6 +1143,20 @@ class P(Prop):
                         pairs = [["P", str(s_), str(t_), "none", 0] for s_ in range(n) for t_ in range(n)]
                         out.append(self.with_geometry(rng, {"kind": "ex-mut", "mut": 1, "n": n, "order": order, "e": list(e),
                                                             "ops": pairs + [["W", j, w, rng.choice([0, 1, 2])]] + pairs}))
+        # the same enumerated graphs in A* MODE: weights {0, 4, 8} on a lattice box of 3 (heuristics consistent and not), astar_wgt
+        # 1 / 0.5 / 2, every ordered pair by shortest_path (quick: every 4th graph)
+        cnt = 0
+        for n in (2, 3):
+            for k in (1, 2):
+                for e in nc.enum_graphs(n, k, ordered=True):
+                    cnt += 1
+                    if tier == "quick" and cnt % 4:
+                        continue
+                    g = nc.explicit({"kind": "astar-ex", "astar": 1, "float": 1, "n": n, "order": list(range(n)), "e": list(e)})
+                    g["edges"] = [[i, a, b, 4.0 * w, o] for (i, a, b, w, o) in g["edges"]]
+                    g["pos"], g["lines"] = nc.random_geometry(rng, n, g["edges"])
+                    g["ops"] = [["A", rng.choice([1, 1, 0.5, 2])], ["M", 1]] + [["P", str(s_), str(t_), "none", 0] for s_ in range(n) for t_ in range(n)]
+                    out.append(g)
         if tier == "thorough":
             for n in (1, 2, 3):
                 for e in nc.enum_graphs(n, 3, ordered=False):
